@@ -171,7 +171,10 @@ type errorExtra struct {
 // When debug is false, stack traces and file paths are omitted to avoid leaking
 // implementation details to clients.
 func buildErrorExtra(err error, debug bool) string {
-	errType := fmt.Sprintf("%T", err)
+	// Any error that is not an RpcError or a typed framework error is a
+	// RuntimeError on the wire: a Go type name ("*errors.errorString",
+	// "*fmt.wrapError") means nothing to a client in another language.
+	errType := "RuntimeError"
 
 	// Prefer the wire-stable class name for typed errors.
 	switch e := err.(type) {
